@@ -1,6 +1,28 @@
 import Magog.Model.Search
+import Magog.Lemmas.EvalBound
+import Magog.Lemmas.MateValue
+import Magog.Lemmas.MateWitness
+import Magog.Props.C04
 
-/-! Property C05 — mate and stalemate: score arithmetic and formatting (on regenerated constants). -/
+/-! Property C05 — mate and stalemate.
+
+    1. score arithmetic and formatting (on regenerated constants);
+    2. **evaluation bound**: on a well-formed position (`Inv`) and with a bounded king-table blend
+       (`BlendBounded`, the recorded parameter assumption) every non-mate evaluation is within `evalB`, an explicit
+       number computed from the generated constants and tables, and `evalB < ScoreCloseToMate < −Lost − 200`
+       (`eval_bound`, `band_order`, `C05_cp`); this discharges the hypothesis `EvalRange` of C04
+       (`evalRange_of_inv`, `C04_reported_scores_inv`);
+    3. **mate exactness** on the model's own game tree (`Spec/MateM.lean`: `winsInM` / `losesInM` over
+       `generateMoves` / `makeMove`; the link of that tree to the rules of chess is C01's business):
+       `V_mate_exact`, `V_mate_sound`, `V_mate_complete`, and for the scores the search prints
+       `C05_reported_mate`.
+
+    Hypotheses of part 3 (definitions in `Lemmas/MateValue.lean`):
+    * `Closed G`            `G` is closed under `makeMove` along generated moves (C04);
+    * `EvalBoundOn blend G` the conclusion of part 2 on `G` (`evalBoundOn_of_inv`);
+    * `GenLink G`           on `G` the full generator runs, `countMoves` counts its list and the tactical generator
+                            lists its tactical moves (the last two are C06: `genLink_of_countOk`);
+    * a depth budget `D` with `Lost + D < −evalB` (resp. `D ≤ 79000` for the formatted scores). -/
 
 namespace Magog.Props.C05
 open Magog Magog.Model
@@ -62,5 +84,299 @@ theorem terminal_class (p : Position) (depth : Int) (chk : Bool) (h : isCurrentK
 
 example : formatScore 99999 = .mate 1 ∧ formatScore (-99998) = .mate (-1) ∧ formatScore 99997 = .mate 2 ∧
     formatScore (-20800) = .cp (-20800) ∧ formatScore 20801 = .mate 39600 := by decide
+
+/-! ### part 2: the evaluation bound -/
+
+section EvalBound
+open Magog.Lemmas.EvalBound Magog.Lemmas.AlphaBeta Magog.Spec.Minimax
+
+/-- every entry of the 14 generated piece-square tables is bounded by the kernel-computed maximum `pstMaxAbs` -/
+theorem pst_bound (t : List Int) (ht : t ∈ allPst) (v : Int) (hv : v ∈ t) : v.natAbs ≤ pstMaxAbs := by
+  have := List.all_eq_true.mp (tableOk_of_mem ht) v hv
+  simpa using this
+
+example : Gen.sqTableKingEndgameWhite ∈ allPst ∧ (-50 : Int) ∈ Gen.sqTableKingEndgameWhite ∧ pstMaxAbs = 50 := by
+  decide +kernel
+
+/-- mobility: `countMoves` is bounded by the list lengths (13 per pawn, 64 per piece, 8 king steps, 2 castlings),
+    whoever is to move; no invariant needed -/
+theorem countMoves_le (p : Position) (n : Nat) (h : countMoves p = .ok n) :
+    n ≤ moveBound p ∧
+    moveBound p = max (13 * p.whitePawns.length + 64 * p.whitePieces.length + 10)
+                      (13 * p.blackPawns.length + 64 * p.blackPieces.length + 10) :=
+  ⟨Lemmas.EvalBound.countMoves_le h, rfl⟩
+
+/-- … and by `maxMoves = 64 · pieceCap + 10` on a well-formed position, for either side to move -/
+theorem countMoves_le_maxMoves (p : Position) (hp : Inv p) :
+    (∀ n, countMoves p = .ok n → n ≤ maxMoves) ∧ (∀ n, countMoves (flipTurn p) = .ok n → n ≤ maxMoves) ∧
+    maxMoves = 64 * Gen.pieceCap + 10 :=
+  ⟨fun _ h => countMoves_le_max hp h, fun _ h => countMoves_flip_le_max hp h, rfl⟩
+
+set_option maxRecDepth 100000 in
+example : Inv startPosition ∧ countMoves startPosition = .ok 20 ∧ countMoves (flipTurn startPosition) = .ok 20 ∧
+    moveBound startPosition = 562 ∧ maxMoves = 970 :=
+  ⟨inv_startPosition, okIs_eq (by decide +kernel), okIs_eq (by decide +kernel), by decide +kernel, by decide⟩
+
+/-- **evaluation bound.** On a well-formed position, with a blend that stays within the table bound, the
+    piece-square score, the lazy evaluation (any window) and the full evaluation are within `evalB`, except for
+    the exact mate score `Lost + depth` of a checkmated side to move. `evalB` is computed from the generated
+    constants and tables: `pieceCap·(matMax + T) + pieceCap·T + 2·T + (64·pieceCap + 10)·MobilityScoreFactor`
+    with `T = pstMaxAbs` (`evalB_eq`). -/
+theorem eval_bound (blend : Blend) (p : Position) (hp : Inv p) (hb : BlendBounded blend pstMaxAbs) :
+    (∀ c, pieceSquareScore blend p = .ok c → c.natAbs ≤ evalB) ∧
+    (∀ (d α β x : Int), lazyEvaluate blend p d α β = .ok x → x = Gen.LostScore + d ∨ x.natAbs ≤ evalB) ∧
+    (∀ (d x : Int), evaluate blend p d = .ok x → x = Gen.LostScore + d ∨ x.natAbs ≤ evalB) :=
+  Lemmas.EvalBound.eval_bound hp hb
+
+/-- … and the mate score is returned exactly when `isCheckMate` holds -/
+theorem eval_class (blend : Blend) (p : Position) (hp : Inv p) (hb : BlendBounded blend pstMaxAbs)
+    (d α β x : Int) (h : lazyEvaluate blend p d α β = .ok x) :
+    (isCheckMate p = .ok true ∧ x = Gen.LostScore + d) ∨ (isCheckMate p = .ok false ∧ x.natAbs ≤ evalB) :=
+  lazyEvaluate_bound hp hb h
+
+/-- the bands, decided on the generated constants and tables: evaluations < mate threshold < mate scores -/
+theorem band_order : evalB < Gen.ScoreCloseToMate ∧ (Gen.ScoreCloseToMate : Int) < -Gen.LostScore - 200 :=
+  ⟨evalB_lt, closeToMate_lt⟩
+
+/-- non-vacuity: the start position is well-formed, the integer blend `mid` is bounded, the evaluation runs -/
+example : Inv startPosition ∧ BlendBounded demoBlend pstMaxAbs ∧ evaluate demoBlend startPosition 0 = .ok 0 ∧
+    evalB = 19950 :=
+  ⟨inv_startPosition, Lemmas.MateValue.demoBlend_bounded, Lemmas.MateValue.start_eval, by decide +kernel⟩
+
+/-- non-mate evaluations are always reported as `cp` -/
+theorem C05_cp (blend : Blend) (p : Position) (hp : Inv p) (hb : BlendBounded blend pstMaxAbs) (d x : Int)
+    (h : evaluate blend p d = .ok x) (hx : x ≠ Gen.LostScore + d) : formatScore x = .cp x := by
+  rcases (Lemmas.EvalBound.eval_bound hp hb).2.2 d x h with h | h
+  · exact absurd h hx
+  · exact format_cp x (Nat.le_trans h (Nat.le_of_lt evalB_lt))
+
+example : Inv startPosition ∧ BlendBounded demoBlend pstMaxAbs ∧ evaluate demoBlend startPosition 0 = .ok 0 ∧
+    (0 : Int) ≠ Gen.LostScore + 0 :=
+  ⟨inv_startPosition, Lemmas.MateValue.demoBlend_bounded, Lemmas.MateValue.start_eval, by decide⟩
+
+/-- the evaluation bound discharges C04's hypothesis `EvalRange` on every set of well-formed positions, for all
+    depth budgets `D` with `Lost + D ≤ −evalB` (on the current constants: `D ≤ 80050`) -/
+theorem evalRange_of_inv (blend : Blend) (G : Position → Prop) (hG : ∀ p, G p → Inv p)
+    (hb : BlendBounded blend pstMaxAbs) (D : Nat) (hD : Gen.LostScore + (D : Int) ≤ -(evalB : Int)) :
+    EvalRange blend G D :=
+  Lemmas.EvalBound.evalRange_of_inv hG hb D hD
+
+/-- a generous concrete budget -/
+theorem depth_10000_ok : Gen.LostScore + ((10000 : Nat) : Int) ≤ -(evalB : Int) :=
+  Lemmas.EvalBound.depth_10000_ok
+
+example : (∀ p, (fun p => p = startPosition) p → Inv p) ∧ BlendBounded demoBlend pstMaxAbs :=
+  ⟨fun _ h => h ▸ inv_startPosition, Lemmas.MateValue.demoBlend_bounded⟩
+
+/-- C04's reported-score theorem with the evaluation-range hypothesis discharged: on a closed set of well-formed
+    positions, with a bounded blend, every score reported for a completed iteration is the minimax value -/
+theorem C04_reported_scores_inv (env : Env) (G : Position → Prop) (hG : ∀ p, G p → Inv p)
+    (hb : BlendBounded env.blend pstMaxAbs) (hq : Quiet env) (hps : PermSort env)
+    (hcl : Closed G) (hlz : LazyOn env G) (qfuel : Nat) (p : Position) (maxDepth : Nat) (killers : Killers)
+    (rows : Array (Array Move)) (len0 : Nat) (s : SS) (hp : G p) (hD1 : 1 + qfuel ≤ 10000)
+    (hD : maxDepth + qfuel ≤ 10000) (h : iterDeep env qfuel p maxDepth killers rows len0 = .ok s) :
+    (∀ d sc nodes pv, Event.infoDepth d sc nodes pv ∈ s.out →
+        ∀ w, rootV env.blend qfuel d p = .ok w → sc = w) ∧
+    ((∃ m best done nodes pv rest, s.out = .bestmove m :: .infoPv best done nodes pv :: rest ∧
+        ∀ w, rootV env.blend qfuel done p = .ok w → best = w) ∨
+     (∃ sc rest, s.out = .bestmoveNone :: .infoTerminal sc :: rest ∧
+        ∀ w, rootV env.blend qfuel 1 p = .ok w → sc = w)) :=
+  C04.C04_reported_scores env G hq hps hcl hlz 10000
+    (Lemmas.EvalBound.evalRange_of_inv hG hb 10000 Lemmas.EvalBound.depth_10000_ok)
+    qfuel p maxDepth killers rows len0 s hp hD1 hD h
+
+end EvalBound
+
+/-! ### part 3: mate exactness on the model's game tree -/
+
+section Mate
+open Magog.Lemmas.EvalBound Magog.Lemmas.AlphaBeta Magog.Lemmas.MateValue Magog.Spec.Minimax Magog.Spec.MateM
+
+/-- the hypothesis `EvalBoundOn` is the conclusion of part 2 -/
+theorem evalBoundOn_of_inv (blend : Blend) (G : Position → Prop) (hG : ∀ p, G p → Inv p)
+    (hb : BlendBounded blend pstMaxAbs) : EvalBoundOn blend G :=
+  Lemmas.MateValue.evalBoundOn_of_inv hG hb
+
+/-- the hypothesis `GenLink` from C06's side conditions plus "the generator does not panic" -/
+theorem genLink_of_countOk (G : Position → Prop)
+    (hgen : ∀ p, G p → ∃ ms, generateMoves Killers.empty p = .ok ms)
+    (hc : ∀ p, G p → Count.CountOk p) (hcells : ∀ p, G p → Count.CellsOk p) : GenLink G :=
+  Lemmas.MateValue.genLink_of_countOk hgen hc hcells
+
+/-- **mate exactness of the minimax value.** Let `w` be the plain minimax value of `p` at depth `depth` with `rem`
+    full-width plies (then quiescence). Then
+    * (range) `w` is a "mated in `n`" score `Lost + depth + n` with `n ≤ rem + 1`, or an evaluation-band score
+      (`|w| ≤ evalB`), or a "mates in `n`" score `−(Lost + depth + n)` with `1 ≤ n ≤ rem + 1`;
+    * (exact within the horizon) for every `n ≤ rem`: the side to move is mated within `n` plies on the model tree
+      iff `w ≤ Lost + depth + n`, and it mates within `n` plies iff `w ≥ −(Lost + depth + n)` — and both
+      specification functions are defined;
+    * (sound one ply beyond: mates found by quiescence, i.e. a checkmated leaf or a mating capture/promotion at
+      the leaf) if `w ≤ Lost + depth + rem + 1` then `losesInM (rem + 1) p` is true whenever defined, if
+      `w ≥ −(Lost + depth + rem + 1)` then `winsInM (rem + 1) p` is true whenever defined (they are defined when
+      the check test does not panic on `G`, `definedM`). A quiet mating move at the horizon is not seen, so
+      there is no completeness at `rem + 1`. -/
+theorem V_mate_exact (blend : Blend) (qfuel : Nat) (G : Position → Prop) (hcl : Closed G)
+    (hev : EvalBoundOn blend G) (hl : GenLink G) (D : Nat) (hD : Gen.LostScore + (D : Int) < -(evalB : Int))
+    (rem depth : Nat) (p : Position) (w : Int) (hp : G p) (hdD : depth + rem + qfuel + 1 ≤ D)
+    (h : V blend qfuel rem p depth = .ok w) :
+    ((∃ n, n ≤ rem + 1 ∧ w = Gen.LostScore + depth + n) ∨ w.natAbs ≤ evalB ∨
+      (∃ n, 1 ≤ n ∧ n ≤ rem + 1 ∧ w = -(Gen.LostScore + depth + n))) ∧
+    (∀ n, n ≤ rem → ∃ b, losesInM n p = .ok b ∧ (b = true ↔ w ≤ Gen.LostScore + depth + n)) ∧
+    (∀ n, n ≤ rem → ∃ b, winsInM n p = .ok b ∧ (b = true ↔ -(Gen.LostScore + depth + n) ≤ w)) ∧
+    (w ≤ Gen.LostScore + depth + (rem + 1 : Nat) → ∀ b, losesInM (rem + 1) p = .ok b → b = true) ∧
+    (-(Gen.LostScore + depth + (rem + 1 : Nat)) ≤ w → ∀ b, winsInM (rem + 1) p = .ok b → b = true) :=
+  let sp := V_mateSpec blend qfuel G hcl hev hl D hD rem depth p w hp hdD h
+  ⟨sp.range, sp.loses, sp.wins, sp.losesNext, sp.winsNext⟩
+
+/-- the specification functions are defined on `G` at every length when, in addition, the check test does not
+    panic on `G` -/
+theorem mate_spec_defined (G : Position → Prop) (hcl : Closed G) (hl : GenLink G)
+    (hchk : ∀ p, G p → ∃ c, isCurrentKingUnderCheck p = .ok c) (n : Nat) (p : Position) (hp : G p) :
+    (∃ b, winsInM n p = .ok b) ∧ (∃ b, losesInM n p = .ok b) :=
+  definedM hcl hl.gen hchk n p hp
+
+/-- non-vacuity of the hypotheses: the mated root (fool's mate) as a one-point closed set, value `Lost` = "mated
+    in 0", and `losesInM 0` is true -/
+example : Closed FM ∧ EvalBoundOn demoBlend FM ∧ GenLink FM ∧ (∀ p, FM p → ∃ c, isCurrentKingUnderCheck p = .ok c) ∧
+    Gen.LostScore + ((10000 : Nat) : Int) < -(evalB : Int) ∧ FM foolsMate ∧ 0 + 2 + 3 + 1 ≤ 10000 ∧
+    V demoBlend 3 2 foolsMate 0 = .ok Gen.LostScore ∧ losesInM 0 foolsMate = .ok true :=
+  ⟨fm_closed killerIndep', fm_evalBoundOn, fm_genLink, fm_chk, by decide +kernel, rfl, by decide, fm_V, fm_loses0⟩
+
+/-- an instance of the conclusion with a real mating move (kernel-evaluated): Kb6, Pc7 against Ka8, white to move.
+    The position is well-formed, one full-width ply gives the value `−(Lost + 0 + 1)`, the side to move mates in
+    exactly one ply on the model tree, and the score is printed as `mate 1`. -/
+example : Inv m1Pos ∧ V demoBlend 2 1 m1Pos 0 = .ok (-(Gen.LostScore + (0 : Nat) + (1 : Nat))) ∧
+    winsInM 1 m1Pos = .ok true ∧ winsInM 0 m1Pos = .ok false ∧
+    formatScore (-(Gen.LostScore + (0 : Nat) + (1 : Nat))) = .mate 1 :=
+  ⟨m1_inv, m1_V, m1_wins1, m1_wins0, by decide⟩
+
+/-- **soundness of mate scores**: a mate-valued `V` (`closeToMate w`, i.e. `|w| > ScoreCloseToMate`) equals
+    `±(Lost + depth + n)` for an `n ≤ rem + 1` such that a forced mate of exactly that length exists on the model
+    tree (forced within `n` plies, not within fewer) -/
+theorem V_mate_sound (blend : Blend) (qfuel : Nat) (G : Position → Prop) (hcl : Closed G)
+    (hev : EvalBoundOn blend G) (hl : GenLink G) (hchk : ∀ p, G p → ∃ c, isCurrentKingUnderCheck p = .ok c)
+    (D : Nat) (hD : Gen.LostScore + (D : Int) < -(Gen.ScoreCloseToMate : Int))
+    (rem depth : Nat) (p : Position) (w : Int) (hp : G p) (hdD : depth + rem + qfuel + 1 ≤ D)
+    (h : V blend qfuel rem p depth = .ok w) (hmate : closeToMate w = true) :
+    (∃ n, n ≤ rem + 1 ∧ w = Gen.LostScore + depth + n ∧ losesInM n p = .ok true ∧
+      ∀ k, k < n → losesInM k p = .ok false) ∨
+    (∃ n, 1 ≤ n ∧ n ≤ rem + 1 ∧ w = -(Gen.LostScore + depth + n) ∧ winsInM n p = .ok true ∧
+      ∀ k, k < n → winsInM k p = .ok false) :=
+  Lemmas.MateValue.V_mate_sound blend qfuel G hcl hev hl hchk D hD rem depth p w hp hdD h hmate
+
+example : Closed FM ∧ EvalBoundOn demoBlend FM ∧ GenLink FM ∧ (∀ p, FM p → ∃ c, isCurrentKingUnderCheck p = .ok c) ∧
+    Gen.LostScore + ((10000 : Nat) : Int) < -(Gen.ScoreCloseToMate : Int) ∧ FM foolsMate ∧ 0 + 2 + 3 + 1 ≤ 10000 ∧
+    V demoBlend 3 2 foolsMate 0 = .ok Gen.LostScore ∧ closeToMate Gen.LostScore = true :=
+  ⟨fm_closed killerIndep', fm_evalBoundOn, fm_genLink, fm_chk, by decide, rfl, by decide, fm_V, by decide⟩
+
+/-- **completeness within the horizon**: if `n ≤ rem` is the least length of a forced mate against (resp. for) the
+    side to move on the model tree, the value is exactly `Lost + depth + n` (resp. `−(Lost + depth + n)`) -/
+theorem V_mate_complete (blend : Blend) (qfuel : Nat) (G : Position → Prop) (hcl : Closed G)
+    (hev : EvalBoundOn blend G) (hl : GenLink G) (D : Nat) (hD : Gen.LostScore + (D : Int) < -(evalB : Int))
+    (rem depth : Nat) (p : Position) (w : Int) (hp : G p) (hdD : depth + rem + qfuel + 1 ≤ D)
+    (h : V blend qfuel rem p depth = .ok w) (n : Nat) (hn : n ≤ rem) :
+    (losesInM n p = .ok true → (∀ k, k < n → losesInM k p = .ok false) → w = Gen.LostScore + depth + n) ∧
+    (winsInM n p = .ok true → (∀ k, k < n → winsInM k p = .ok false) → w = -(Gen.LostScore + depth + n)) :=
+  Lemmas.MateValue.V_mate_complete blend qfuel G hcl hev hl D hD rem depth p w hp hdD h n hn
+
+example : Closed FM ∧ EvalBoundOn demoBlend FM ∧ GenLink FM ∧
+    Gen.LostScore + ((10000 : Nat) : Int) < -(evalB : Int) ∧ FM foolsMate ∧ 0 + 2 + 3 + 1 ≤ 10000 ∧
+    V demoBlend 3 2 foolsMate 0 = .ok Gen.LostScore ∧ 0 ≤ 2 ∧ losesInM 0 foolsMate = .ok true ∧
+    (∀ k, k < 0 → losesInM k foolsMate = .ok false) :=
+  ⟨fm_closed killerIndep', fm_evalBoundOn, fm_genLink, by decide +kernel, rfl, by decide, fm_V, by decide, fm_loses0,
+   fun _ hk => absurd hk (Nat.not_lt_zero _)⟩
+
+/-- **reported mate scores.** For every `info depth t score sc` line of a completed iteration `t ≤ maxDepth`
+    (whose spec value is defined): `sc` is the minimax value of the depth-`t` tree and
+    * if the side to move is mated in exactly `n ≤ max t 1` plies on the model tree, the line says
+      `mate −⌈n/2⌉`; if it mates in exactly `n ≤ max t 1` plies, the line says `mate ⌈n/2⌉` (found when forced);
+    * if the line says `mate k`, a forced mate of exactly `n` plies exists on the model tree, for or against the
+      side to move according to the sign, with `|k| = ⌈n/2⌉` and `n ≤ max t 1 + 1` (real when announced, exact
+      distance);
+    * otherwise the line says `cp sc` with `|sc| ≤ evalB`.
+    (`t − 1 + 1 = max t 1`; by `C04_iterations` every printed depth is `≤ max 1 maxDepth`.) -/
+theorem C05_reported_mate (env : Env) (G : Position → Prop) (hq : Quiet env) (hps : PermSort env)
+    (hcl : Closed G) (hlz : LazyOn env G) (hev : EvalBoundOn env.blend G) (hl : GenLink G)
+    (hchk : ∀ p, G p → ∃ c, isCurrentKingUnderCheck p = .ok c)
+    (D : Nat) (hD : D ≤ 79000) (qfuel : Nat) (p : Position) (maxDepth : Nat) (killers : Killers)
+    (rows : Array (Array Move)) (len0 : Nat) (s : SS) (hp : G p) (hD1 : qfuel + 2 ≤ D)
+    (hDm : maxDepth + qfuel + 1 ≤ D) (h : iterDeep env qfuel p maxDepth killers rows len0 = .ok s)
+    (t : Nat) (sc : Int) (nodes : Nat) (pv : List Move) (hmem : Event.infoDepth t sc nodes pv ∈ s.out)
+    (ht : t ≤ maxDepth) (w : Int) (hw : rootV env.blend qfuel t p = .ok w) :
+    sc = w ∧
+    (∀ n, n ≤ t - 1 + 1 → losesInM n p = .ok true → (∀ k, k < n → losesInM k p = .ok false) →
+      formatScore sc = .mate (-(((n + 1) / 2 : Nat) : Int))) ∧
+    (∀ n, n ≤ t - 1 + 1 → winsInM n p = .ok true → (∀ k, k < n → winsInM k p = .ok false) →
+      formatScore sc = .mate (((n + 1) / 2 : Nat) : Int)) ∧
+    (∀ k, formatScore sc = .mate k →
+      (∃ n, n ≤ t - 1 + 1 + 1 ∧ sc = Gen.LostScore + n ∧ k = -(((n + 1) / 2 : Nat) : Int) ∧
+        losesInM n p = .ok true ∧ ∀ j, j < n → losesInM j p = .ok false) ∨
+      (∃ n, 1 ≤ n ∧ n ≤ t - 1 + 1 + 1 ∧ sc = -Gen.LostScore - n ∧ k = (((n + 1) / 2 : Nat) : Int) ∧
+        winsInM n p = .ok true ∧ ∀ j, j < n → winsInM j p = .ok false)) ∧
+    (closeToMate sc = false → formatScore sc = .cp sc ∧ sc.natAbs ≤ evalB) := by
+  have hlt := evalB_lt
+  have hDe : Gen.LostScore + (D : Int) < -(evalB : Int) := by
+    simp only [Gen.LostScore, Gen.ScoreCloseToMate] at *; omega
+  have hDc : Gen.LostScore + (D : Int) < -(Gen.ScoreCloseToMate : Int) := by
+    simp only [Gen.LostScore, Gen.ScoreCloseToMate] at *; omega
+  have her : EvalRange env.blend G D := evalRange_of_evalBoundOn hev D (by omega)
+  have hsc : sc = w :=
+    (C04.C04_reported_scores env G hq hps hcl hlz D her qfuel p maxDepth killers rows len0 s hp (by omega)
+      (by omega) h).1 t sc nodes pv hmem w hw
+  subst hsc
+  unfold rootV at hw
+  have hdD : 0 + (t - 1 + 1) + qfuel + 1 ≤ D := by omega
+  have hcomp := Lemmas.MateValue.V_mate_complete env.blend qfuel G hcl hev hl D hDe (t - 1 + 1) 0 p sc hp hdD hw
+  refine ⟨rfl, ?_, ?_, ?_, ?_⟩
+  · intro n hn h1 h2
+    have := (hcomp n hn).1 h1 h2
+    have hsc : sc = Gen.LostScore + (n : Int) := by push_cast at this; omega
+    rw [hsc]
+    exact format_mate_lose n (by omega)
+  · intro n hn h1 h2
+    have := (hcomp n hn).2 h1 h2
+    have hsc : sc = -Gen.LostScore - (n : Int) := by push_cast at this; omega
+    rw [hsc]
+    exact format_mate_win n (by omega)
+  · intro k hk
+    have hclose : closeToMate sc = true := by
+      unfold formatScore at hk
+      split at hk
+      · assumption
+      · cases hk
+    rcases Lemmas.MateValue.V_mate_sound env.blend qfuel G hcl hev hl hchk D hDc (t - 1 + 1) 0 p sc hp hdD hw hclose
+      with ⟨n, hn, hwn, h1, h2⟩ | ⟨n, hn1, hn, hwn, h1, h2⟩
+    · have hsc : sc = Gen.LostScore + (n : Int) := by push_cast at hwn; omega
+      refine .inl ⟨n, hn, hsc, ?_, h1, h2⟩
+      rw [hsc, format_mate_lose n (by omega)] at hk
+      exact (ScoreText.mate.inj hk).symm
+    · have hsc : sc = -Gen.LostScore - (n : Int) := by push_cast at hwn; omega
+      refine .inr ⟨n, hn1, hn, hsc, ?_, h1, h2⟩
+      rw [hsc, format_mate_win n (by omega)] at hk
+      exact (ScoreText.mate.inj hk).symm
+  · intro hnc
+    have sp := V_mateSpec env.blend qfuel G hcl hev hl D hDe (t - 1 + 1) 0 p sc hp hdD hw
+    have hiff := closeToMate_iff_of_range (d := 0) (rem := t - 1 + 1) hDc (by omega) sp.range
+    have hb : sc.natAbs ≤ evalB := by
+      by_cases hb : sc.natAbs ≤ evalB
+      · exact hb
+      · rw [hiff.mpr hb] at hnc; cases hnc
+    refine ⟨?_, hb⟩
+    unfold formatScore
+    simp [hnc]
+
+/-- non-vacuity (hypotheses): iterative deepening from the mated root with the lazy evaluation and a reversing
+    sort. No `info depth` line is printed there (the root is terminal), so this instance shows the hypotheses
+    to be satisfiable; the conclusion on a root with a mating move is illustrated by `m1Pos` above. -/
+example : Quiet demoEnvLazy ∧ PermSort demoEnvLazy ∧ Closed FM ∧ LazyOn demoEnvLazy FM ∧
+    EvalBoundOn demoEnvLazy.blend FM ∧ GenLink FM ∧ (∀ p, FM p → ∃ c, isCurrentKingUnderCheck p = .ok c) ∧
+    (100 : Nat) ≤ 79000 ∧ FM foolsMate ∧ 3 + 2 ≤ 100 ∧ 5 + 3 + 1 ≤ 100 ∧
+    (∃ s, iterDeep demoEnvLazy 3 foolsMate 5 Killers.empty (newRows 8) 0 = .ok s) := by
+  refine ⟨demoEnvLazy_quiet, demoEnvLazy_perm, fm_closed killerIndep', fm_lazyOn, fm_evalBoundOn, fm_genLink, fm_chk,
+    by decide, rfl, by decide, by decide, ?_⟩
+  obtain ⟨s, hr, _⟩ := map_ok (okIs_eq fm_iterDeep)
+  exact ⟨s, hr⟩
+
+end Mate
 
 end Magog.Props.C05
